@@ -7,18 +7,30 @@ package core
 // Ghost attributes of a schedule object: the number of tokens it has left (negative = unknown yet).
 //@ global leftOf map[Schedule]int
 
+// startedOf[s]: Start was called on s, or Next started it implicitly (a second Start panics).
+//@ global startedOf map[Schedule]bool
+
 //@ iface Schedule.Next
 //@ ensures [token-event] ev(token) == old(ev(token)) + ite(ok, 1, 0)
 //@ ensures [left-drops] imp(ok && old(leftOf[self]) > 0, leftOf[self] == old(leftOf[self]) - 1)
 //@ ensures [exhausted] imp(old(leftOf[self]) == 0, !ok && leftOf[self] == 0)
-//@ modifies leftOf[self], ev(token)
+//@ ensures [known-tokens-are-handed-out] imp(old(leftOf[self]) > 0, ok)
+//@ ensures [finished-means-nothing-left] imp(!ok, leftOf[self] == 0)
+//@ ensures [unknown-stays-unknown-or-ends] imp(old(leftOf[self]) < 0, leftOf[self] < 0 || leftOf[self] == 0)
+//@ ensures [started] startedOf[self]
+//@ modifies leftOf[self], ev(token), startedOf[self]
 
+// A known count changes only by Next; an unknown count (time-bounded unlimited part) may turn into 0 when its time is over.
 //@ iface Schedule.Left
 //@ ensures result == leftOf[self]
+//@ ensures [known-count-is-stable] imp(old(leftOf[self]) >= 0, leftOf[self] == old(leftOf[self]))
+//@ ensures [unknown-stays-unknown-or-ends] imp(old(leftOf[self]) < 0, leftOf[self] < 0 || leftOf[self] == 0)
 //@ modifies leftOf[self]
 
 //@ iface Schedule.Start
-//@ modifies leftOf[self]
+//@ may_panic startedOf[self]
+//@ ensures startedOf[self]
+//@ modifies startedOf[self]
 
 // Ghost event counters of one pool run.
 //@ event token acquire_ok release shoot report
